@@ -21,6 +21,10 @@
 #include <sanitizer/common_interface_defs.h>
 #include <sanitizer/asan_interface.h>
 #endif
+#ifdef SIM_VALGRIND
+#include <valgrind/valgrind.h>
+#include <map>
+#endif
 #if defined(__x86_64__)
 extern "C" void sim_ctx_switch(void** save_sp, void* new_sp);   // sim/sim.cpp
 #define GOMP_FIBERS 1
@@ -64,6 +68,9 @@ struct TeamRun { long single_claimed = 0; std::vector<Fiber> f; void (*fn)(void*
 TeamRun* g_team = nullptr;
 const size_t FIBER_STACK = 512u << 10;
 std::vector<char*> g_fiber_pool;
+#ifdef SIM_VALGRIND
+std::map<char*, unsigned> g_fiber_vg_id;   // stacks registered with valgrind (kept registered while pooled)
+#endif
 
 char* fiber_stack_alloc() {
     if (!g_fiber_pool.empty()) { char* p = g_fiber_pool.back(); g_fiber_pool.pop_back();
@@ -74,13 +81,20 @@ char* fiber_stack_alloc() {
     void* p = mmap(nullptr, FIBER_STACK, PROT_READ | PROT_WRITE, MAP_PRIVATE | MAP_ANONYMOUS | MAP_NORESERVE, -1, 0);
     if (p == MAP_FAILED) { perror("mmap omp fiber stack"); abort(); }
     mprotect(p, 4096, PROT_NONE);
+#ifdef SIM_VALGRIND
+    g_fiber_vg_id[(char*)p] = VALGRIND_STACK_REGISTER((char*)p, (char*)p + FIBER_STACK);   // or memcheck takes the fiber's frames for wild accesses
+#endif
     return (char*)p;
 }
 void fiber_stack_free(char* p) {
 #ifdef GOMP_ASAN
     ASAN_UNPOISON_MEMORY_REGION(p, FIBER_STACK);
 #endif
-    if (g_fiber_pool.size() < 64) g_fiber_pool.push_back(p); else munmap(p, FIBER_STACK);
+    if (g_fiber_pool.size() < 64) { g_fiber_pool.push_back(p); return; }
+#ifdef SIM_VALGRIND
+    { auto it = g_fiber_vg_id.find(p); if (it != g_fiber_vg_id.end()) { VALGRIND_STACK_DEREGISTER(it->second); g_fiber_vg_id.erase(it); } }
+#endif
+    munmap(p, FIBER_STACK);
 }
 
 void fiber_to_scheduler(Fiber& me, bool finishing) {
